@@ -4,7 +4,7 @@
 From Coq Require Import NArith Bool List Permutation Sorted.
 Import ListNotations.
 From XetModel Require Import Base.Codec Gen.ShardLayout Model.Merkle Model.Shard Proofs.CodecProofs Proofs.ShardProofs Proofs.SearchProofs Proofs.SetOpSortedProofs Proofs.ShardWholeProofs Proofs.ShardSizeProofs.
-From XetModel Require Import Proofs.StreamProofs Proofs.FooterTotalsProofs.
+From XetModel Require Import Proofs.StreamProofs Proofs.MinimalReaderProofs Proofs.FooterTotalsProofs.
 Open Scope N_scope.
 
 (* every fixed-width record codec round-trips (whatever field order the source uses, as long as
@@ -132,6 +132,23 @@ Print Assumptions C09_scans_list_all_records.
 Print Assumptions C09_stored_file_found.
 Print Assumptions C09_absent_file_not_found.
 Print Assumptions C09_size_accounting_exact.
+(* the minimal reader built on the walk (MDBMinimalShard::from_reader): over a serialized shard its buffer is exactly the two
+   record sections as written, it notes one offset per record -- where that record begins -- and the xorb section starts where
+   the file section ends; asked for neither section it keeps the two end markers only *)
+Theorem C09_minimal_reader_holds_the_record_sections : forall files cass ctbl key created expiry, Forall wf_file files -> Forall wf_cas cass ->
+  minimal_from_reader (w_bs files cass ctbl key created expiry) true true =
+  Some (mkMin (w_fsec files ++ w_csec cass) (offsets_from 0 (map ser_file_info files))
+              (offsets_from (N.of_nat (length (w_fsec files))) (map ser_cas_info cass)) (N.of_nat (length (w_fsec files)))).
+Proof. exact minimal_reader_serialized. Qed.
+Theorem C09_minimal_reader_asked_for_nothing : forall files cass ctbl key created expiry, Forall wf_file files ->
+  minimal_from_reader (w_bs files cass ctbl key created expiry) false false = Some (mkMin (file_bookend ++ cas_bookend) [] [] 48).
+Proof. exact minimal_reader_nothing. Qed.
+Theorem C09_minimal_reader_offsets_point_at_records : forall blobs pos rest i o b, nth_error (offsets_from pos blobs) i = Some o -> nth_error blobs i = Some b ->
+  exists pre, N.of_nat (length pre) + pos = o /\ exists post, concat blobs ++ rest = pre ++ b ++ post.
+Proof. exact offsets_from_spec. Qed.
+
 Print Assumptions C09_streaming_walk_lists_all_records.
 Print Assumptions C09_streaming_walk_records_parse_back.
 Print Assumptions C09_footer_totals.
+Print Assumptions C09_minimal_reader_holds_the_record_sections.
+Print Assumptions C09_minimal_reader_offsets_point_at_records.
